@@ -5,6 +5,8 @@ package gcsemu
 // snapshots of the store.
 
 import (
+	"bytes"
+	"compress/gzip"
 	"context"
 	"encoding/json"
 	"io"
@@ -18,6 +20,14 @@ import (
 )
 
 func vStubs() map[string]interface{} {
+	m := vBaseStubs()
+	for k, v := range vFsStubs() {
+		m[k] = v
+	}
+	return m
+}
+
+func vBaseStubs() map[string]interface{} {
 	return map[string]interface{}{
 		"fmt.Errorf":                                                        stubFmtErrorf,
 		"encoding/json.NewEncoder":                                          stubNewEncoder,
@@ -99,7 +109,16 @@ func stubDecode(d *json.Decoder, v interface{}) error {
 	vJSONMu.Lock()
 	rd := vDecR[d]
 	vJSONMu.Unlock()
+	if br, isb := rd.(*bytes.Reader); isb {
+		return vDecodeMetaFile(br, v)
+	}
 	b, ok := rd.(*vBody)
+	if zr, isz := rd.(*gzip.Reader); isz {
+		vJSONMu.Lock()
+		b = vGzBody[zr]
+		vJSONMu.Unlock()
+		ok = b != nil
+	}
 	if !ok || b.decode == nil {
 		return vBadJSON{}
 	}
@@ -109,11 +128,20 @@ func stubReadAll(r io.Reader) ([]byte, error) {
 	if b, ok := r.(*vBody); ok {
 		return b.raw, nil
 	}
+	if zr, ok := r.(*gzip.Reader); ok {
+		vJSONMu.Lock()
+		b := vGzBody[zr]
+		vJSONMu.Unlock()
+		if b != nil {
+			return b.raw, nil
+		}
+	}
 	return nil, nil
 }
 
 // vBody is a request body: raw bytes for media uploads, a decode function for JSON bodies.
 type vBody struct {
+	gz     bool // the wire bytes are a gzip stream of raw / of the JSON document
 	raw    []byte
 	decode func(v interface{}) error
 }
